@@ -299,18 +299,61 @@ def _run_one(indexed_task):
                           task, ctx.watchdog, ctx.evaluations, last),
                       {'kind': 'hang', 'task': repr(task)}, 'termination',
                       'no result within %d s' % ctx.watchdog)
+    except MemoryError:
+        # the worker ran into its address-space limit: the library (under
+        # test in this very process) holds on to what it decoded - or
+        # allocates without bound.  A verdict, not an engine error.
+        err = None
+        ctx.states, ctx.nontrivial, ctx.samples = set(), set(), []
+        _release_library_memory()
+        ctx.cap('task %r abandoned: the worker process exceeded its memory '
+                'limit' % (task,))
+        ctx.violation('memory|worker|%r' % (task,),
+                      'task {!r}: the worker process ran out of memory (limit '
+                      '{} MiB) after {} cases: the library keeps or allocates '
+                      'memory without bound'.format(
+                          task, _memory_limit() >> 20, ctx.evaluations),
+                      {'kind': 'memory', 'task': repr(task)},
+                      'bounded memory', 'MemoryError')
     except BaseException:  # an engine error is a broken check, not a verdict
         err = 'task {!r}: {}'.format(task, traceback.format_exc())
     finally:
         _arm(0)
         _restore(old_handler)
         ctx.watchdog = 0
-    out = ctx.export()
+    try:
+        out = ctx.export()
+    except MemoryError:
+        ctx.states, ctx.nontrivial, ctx.samples = set(), set(), []
+        _release_library_memory()
+        ctx.violation('memory|worker-export|%r' % (task,),
+                      'task {!r}: the worker process ran out of memory '
+                      '(limit {} MiB): the library keeps or allocates memory '
+                      'without bound'.format(task, _memory_limit() >> 20),
+                      {'kind': 'memory', 'task': repr(task)},
+                      'bounded memory', 'MemoryError')
+        out = ctx.export()
     out['index'] = idx
     out['task'] = repr(task)[:80]
     out['wall'] = time.time() - t0
     out['error'] = err
     return out
+
+
+def _memory_limit():
+    return int(os.environ.get('VERIF_WORKER_MEM', 6 << 30))
+
+
+def _release_library_memory():
+    """Drop the pamqp modules (and whatever they hold on to) so that this
+    worker can report and go on."""
+    import gc
+    try:
+        from mc import libstate
+        libstate.fresh_import()
+    except Exception:  # noqa
+        pass
+    gc.collect()
 
 
 def _limit_memory():
